@@ -92,6 +92,22 @@ func (l dirItemList) fixLBA(isoLBA, jolietLBA, filesLBA sizeSectors) {
 	}
 }
 
+// dirEntriesSize returns the encoded size of the records of one directory. A record never crosses a sector
+// boundary (ECMA-119 6.8.1.1): when it does not fit, the rest of the sector stays zero and it starts the next one.
+func dirEntriesSize(entries []directoryEntry) sizeBytes {
+	var ret sizeBytes
+
+	for _, entry := range entries {
+		if ret%sectorSize+entry.size() > sectorSize {
+			ret = ret.sectors().bytes()
+		}
+
+		ret += entry.size()
+	}
+
+	return ret
+}
+
 func (l dirItemList) size(joliet bool) sizeBytes {
 	var ret sizeBytes
 
@@ -101,10 +117,7 @@ func (l dirItemList) size(joliet bool) sizeBytes {
 			entries = item.dirEntryJoliet
 		}
 
-		for _, entry := range entries {
-			ret += entry.size()
-		}
-
+		ret += dirEntriesSize(entries)
 		ret = ret.sectors().bytes() // directory entries of one directory aligned to sector
 	}
 
